@@ -219,6 +219,43 @@ pub fn c03(o: &Opts) -> i32 {
     let mut cases = position_pool(o.seed, &spec);
     shuffle_tail(&mut cases, gen::corpus().len(), o.seed);
     run_pool(&ctx, &cases, 0.97, c03_case);
+    // the same through the game front end's move funnel, along whole games in one Game: shuffles that pass a third
+    // occurrence and a half-move clock of 100 (claimable draws, legal moves remain), and ordinary games
+    {
+        let mut gr = Rng::new(o.seed).fork(tag("c03-game-funnel"));
+        let mut games: Vec<(Pos, Vec<Mv>)> = vec![];
+        for g in 0..if q { 24 } else { 240 } {
+            let root = match g % 4 { 0 => Pos::from_fen("8/8/4k3/3Nn3/3nN3/4K3/8/8 w - - 0 1").unwrap(), 1 => gen::random_ending(&mut gr), 2 => Pos::start(), _ => gen::random_setup(&mut gr) };
+            let path = gen::random_game(&root, &mut gr, if g % 4 <= 1 { Policy::Shuffle } else { gen::POLICIES[g % 5] }, if g % 4 == 0 { 130 } else { 60 });
+            games.push((root, path));
+        }
+        par::for_each(&games, par::threads(), |_i, (root, path)| {
+            let mut l = Local::default();
+            let mut game = Game::from_board(to_engine(root), 0);
+            let mut p = root.clone();
+            let mut seen: std::collections::HashMap<PosKey, u32> = std::collections::HashMap::new();
+            for (i, m) in path.iter().enumerate() {
+                let n = { let e = seen.entry(p.key()).or_insert(0); *e += 1; *e };
+                if n >= 3 { l.inc("funnel_moves_made_at_a_third_or_later_occurrence"); }
+                if game.board().halfmove_clock() as u64 >= 100 { l.inc("funnel_moves_made_with_half_move_clock_100_or_more"); }
+                let em = engine_move(m, p.turn);
+                let res = par::guarded(|| game.apply_chess_move(em.clone()));
+                l.inc("successors_compared_through_the_game_funnel");
+                let replay = json!({"root_fen": root.to_fen(), "path": (0..=i).scan(root.clone(), |s, k| { let t = s.uci(&path[k]); *s = s.make(&path[k]); Some(t) }).collect::<Vec<_>>(), "fen": p.to_fen(), "move": p.uci(m)});
+                match res {
+                    Err(msg) => { ctx.violation(&format!("c03:panic:{}", par::last_panic_location()), &format!("Game::apply_chess_move panicked on {} in {}: {}", p.uci(m), p.to_fen(), msg), replay); break; }
+                    Ok(Err(e)) => { ctx.violation(&format!("c03:game-funnel-refuses-a-legal-move:{}", kind_name(m)), &format!("Game::apply_chess_move refused the legal move {} in {} (occurrence {} of the position, half-move clock {}): {:?}", p.uci(m), p.to_fen(), n, game.board().halfmove_clock(), e), replay); break; }
+                    Ok(Ok(())) => {}
+                }
+                p = p.make(m);
+                let got = observe(game.board());
+                let want = obs_of(&p);
+                if got != want { ctx.violation(&format!("c03:successor-through-game-funnel:{}", kind_name(m)), &format!("after {} through Game::apply_chess_move the position differs: {}", p.uci(m), obs_diff(&got, &want)), replay); break; }
+                game.board_mut().toggle_turn();
+            }
+            l.flush(&ctx);
+        }, |_i, u, msg| ctx.violation(&format!("c03:panic:{}", par::last_panic_location()), &format!("engine panicked: {}", msg), json!({"root_fen": u.0.to_fen()})));
+    }
     let mut gates: Vec<(String, u64)> = vec![];
     for col in ["white", "black"] {
         for k in ["quiet", "capture", "double_step", "en_passant", "castle_kingside", "castle_queenside", "promotion_q", "promotion_r", "promotion_b", "promotion_n", "promotion_capture_q", "promotion_capture_r", "promotion_capture_b", "promotion_capture_n"] {
@@ -399,6 +436,7 @@ pub fn c06(o: &Opts) -> i32 {
         if (0..64i32).any(|s| p.sq[s as usize] == Some((p.turn, Pc::P)) && (0..64).contains(&(s + fwd)) && p.sq[(s + fwd) as usize].is_none()) { ctx.count("stalemates_with_a_pinned_pawn_that_could_otherwise_advance", 1); }
         cases.push(Case::setup(p, "stalemate-with-pieces")); } }
     for p in gen::terminal_with_pieces(&mut rt, tries / 4, false) { if seen.insert(p.key()) { cases.push(Case::setup(p, "mate-with-pieces")); } }
+    for p in gen::pinned_pawn_stalemates(&mut rt, tries) { if seen.insert(p.key()) { ctx.count("stalemates_with_a_pinned_pawn_that_could_otherwise_advance", 1); cases.push(Case::setup(p, "stalemate-with-a-pinned-pawn")); } }
     for p in gen::lone_minor_mates(&mut rt, tries) { if seen.insert(p.key()) { ctx.count("positions_where_a_lone_minor_piece_mates", 1); cases.push(Case::setup(p, "lone-minor-mate")); } }
     shuffle_tail(&mut cases, gen::corpus().len(), o.seed);
     run_pool(&ctx, &cases, 0.97, |ctx, st, i, c| c06_case(ctx, st, i, c, 12));
